@@ -212,8 +212,14 @@ def fm_classify(case, reason, line):
         # which targets below the map element did not arrive?  (first run of the scope that delivered an input)
         run = next((x for x in line["runs"] if x["mode"] == scope and x["kind"] == "ok"), None)
         have = [e["p"] for e in run["in"]] if run else []
+        def src_present(pred, spath):
+            # (a target whose SOURCE is absent in the predecessor's value - nil map, missing key - is not a lost update: that is D19)
+            for o in line.get("outs", []):
+                if o.get("pred") == pred:
+                    return any(e["p"][:len(spath)] == spath and e["k"] != "nil" for e in o["flat"])
+            return True
         lost = [m["t"] for g in case["decl"] for m in g["maps"] if len(m["t"]) == 4 and m["t"][0] == "MM"
-                and not any(p[:4] == m["t"] for p in have)]
+                and not any(p[:4] == m["t"] for p in have) and src_present(g["pred"], m["s"])]
         if any(t[2] in ("P", "M") for t in lost):
             return "map-elem-ptr-or-map-field-lost-update"       # pointer / map field of a by-value map element: NOT the known D21 shape
         if any(t[2] == "I" for t in lost):
